@@ -155,7 +155,12 @@ func mergeBuild(c any, o any, path tree.Path) (any, error) {
 		}
 		return nil
 	}
-	return mergeMappings(toBuild(c), toBuild(o), path)
+	base, over := toBuild(c), toBuild(o)
+	if base == nil || over == nil {
+		// neither a context string nor a mapping: left for schema validation to report
+		return nil, fmt.Errorf("cannot override %s", path)
+	}
+	return mergeMappings(base, over, path)
 }
 
 func mergeDependsOn(c any, o any, path tree.Path) (any, error) {
@@ -167,12 +172,18 @@ func mergeDependsOn(c any, o any, path tree.Path) (any, error) {
 		"condition": "service_started",
 		"required":  true,
 	})
+	if right == nil {
+		return nil, fmt.Errorf("cannot override %s", path)
+	}
 	return mergeMappings(right, left, path)
 }
 
 func mergeNetworks(c any, o any, path tree.Path) (any, error) {
 	right := convertIntoMapping(c, nil)
 	left := convertIntoMapping(o, nil)
+	if right == nil {
+		return nil, fmt.Errorf("cannot override %s", path)
+	}
 	return mergeMappings(right, left, path)
 }
 
@@ -249,6 +260,9 @@ func mergeIPAMConfig(c any, o any, path tree.Path) (any, error) {
 	}
 	for _, original := range base {
 		right := convertIntoMapping(original, nil)
+		if right == nil {
+			return nil, fmt.Errorf("cannot override %s", path)
+		}
 		for _, override := range overrides {
 			left := convertIntoMapping(override, nil)
 			if left["subnet"] != right["subnet"] {
